@@ -175,7 +175,7 @@ class G:
     def fuse_prog(self):
         r = self.r
         v1 = r.choice(["i", "i", "j"])
-        v2 = v1 if r.random() < 0.75 else ("j" if v1 == "i" else "i")
+        v2 = v1 if r.random() < 0.65 else ("j" if v1 == "i" else "i")
         lo, hi, st = self.header()
         c = r.random()
         if c < 0.78:
@@ -201,6 +201,13 @@ class G:
             b1.insert(0, ("assign", sc, [], self.expr([v1], arrs1, [], [], 1)))
             b2.insert(0, ("if", self.cond([v2], arrs1, [], []), [("assign", sc, [], L(r.choice([0, 2])))], []))
             b2.append(("assign", arrs1[0], [V(v2)], V(sc)))
+        if v1 != v2:
+            # the other loop's variable used in a body (LoopFuseTrans must refuse: it renames the second variable)
+            c2 = r.random()
+            if c2 < 0.4:
+                b2.append(("assign", arrs1[0], [V(v2)], ("bin", "Add", ("idx", arrs1[-1], [V(v2)]), V(v1))))
+            elif c2 < 0.6:
+                b1.append(("assign", arrs1[0], [V(v1)], V(v2)))
         loops = [("do", v1, lo, hi, st, b1), ("do", v2) + h2 + (b2,)]
         if r.random() < 0.2:
             b3 = self.body([v1], arrs1, arrs2, scal, r.randint(1, 2), 0, None, cons, sf)
